@@ -68,10 +68,10 @@ fn encodings(tier: Tier) -> Vec<Encoding> {
         Encoding::Json { read_group_size: Some(1) },
         Encoding::Parquet { group_size: Some(1) },
         Encoding::Parquet { group_size: Some(2) },
-        Encoding::Parquet { group_size: Some(3) },
         Encoding::Parquet { group_size: None },
     ];
     if tier == Tier::Thorough {
+        v.push(Encoding::Parquet { group_size: Some(3) });
         v.push(Encoding::Json { read_group_size: Some(2) });
         v.push(Encoding::Json { read_group_size: Some(3) });
         v.push(Encoding::Parquet { group_size: Some(4) });
@@ -83,7 +83,7 @@ pub fn cases(tier: Tier) -> Vec<Case> {
     let mut out = vec![];
     for contracts in contract_options(tier) {
         for coins in 0..=3u8 {
-            for messages in 0..=2u8 {
+            for messages in if tier == Tier::Thorough { vec![0u8, 1, 2] } else { vec![0u8, 2] } {
                 for blobs in 0..=1u8 {
                     for processed_txs in if tier == Tier::Thorough { vec![0u8, 1, 2] } else { vec![0u8, 2] } {
                         for height in [0u32, 3] {
@@ -216,8 +216,9 @@ pub fn main(cli: &Cli) -> ! {
         let rf = load_replay(p);
         let case: Case = serde_json::from_value(rf.history.clone()).unwrap_or_else(|e| machinery_failure(&format!("replay does not decode: {e}")));
         let rt = rt();
+        let t0 = std::time::Instant::now();
         let vs = run_case(&rt, &case).unwrap_or_else(|e| machinery_failure(&e));
-        println!("replay: case {}", serde_json::to_string(&case).unwrap());
+        println!("replay: case {} ({:.1} ms)", serde_json::to_string(&case).unwrap(), t0.elapsed().as_secs_f64() * 1e3);
         for x in &vs {
             println!("  {}: {}", x.sig, x.msg);
         }
@@ -306,7 +307,7 @@ pub fn main(cli: &Cli) -> ! {
         machinery_failure("C39: an encoding was never exercised");
     }
     run.add_sweep(sw);
-    run.note("shapes", json!({"coins": "0..=3", "messages": "0..=2", "contracts": if cli.tier == Tier::Thorough { "none | one | two (ordered) of slots{0,1,5} x balances{0,2}" } else { "none | one of slots{0,1,5} x balances{0,2} | two fixed pairs" }, "blobs": "0..=1", "processed_txs": if cli.tier == Tier::Thorough { "0..=2" } else { "{0,2}" }, "height": [0, 3]}));
+    run.note("shapes", json!({"coins": "0..=3", "messages": if cli.tier == Tier::Thorough { "0..=2" } else { "{0,2}" }, "contracts": if cli.tier == Tier::Thorough { "none | one | two (ordered) of slots{0,1,5} x balances{0,2}" } else { "none | one of slots{0,1,5} x balances{0,2} | two fixed pairs" }, "blobs": "0..=1", "processed_txs": if cli.tier == Tier::Thorough { "0..=2" } else { "{0,2}" }, "height": [0, 3]}));
     run.note("encodings", json!(encodings(cli.tier)));
     run.assume("source states are written through the real table blueprints into in-memory databases (blocks 0..=h with one script transaction in block 1); the storage backend (RocksDB vs in-memory) is not part of the property");
     run.assume("'identical chain height' is read as: the snapshot records the source height and block tree root, and the regenesis block sits at source height + 1 with prev_root = source block tree root (regenesis continues the chain by design)");
